@@ -136,8 +136,21 @@ def worker(args):
     plain = build.exe(root, "plain", "h_strm")
     rng = rng_for(seed, PROP, wid)
     try:
-        for k in range(ncases):
-            text, stratum = gen_case(rng, k)
+        # the limits list once through, shared between the workers, each rule with a DTSTART of the list and a random one
+        # (rules on a table-based scale also from shortly before the end of their table, so that the stream runs into it)
+        ends = {"SCALE=HIJRI.DIYANET": ("20221101T090000Z", "20221220"), "SCALE=HIJRI": ("20770901T120000Z", "20771110")}
+        lim = [(r, d) for r in evgen.LIMIT_RULES
+               for d in (None, 0) + ends.get(([p for p in r.split(";") if p.startswith("SCALE=")] or [""])[0], ())][wid::nw]
+        for k in range(ncases + len(lim)):
+            if k >= ncases:
+                rule, pick = lim[k - ncases]
+                ds = rng.choice(evgen.LIMIT_DTSTARTS) if pick is None else pick if pick else "20%02d%02d%02dT%02d%02d%02dZ" % (
+                    rng.randint(0, 98), rng.randint(1, 12), rng.randint(1, 28), rng.randint(0, 23), rng.randint(0, 59), rng.randint(0, 59))
+                par = ";VALUE=DATE" if "T" not in ds else ""
+                text = "BEGIN:VCALENDAR\nBEGIN:VEVENT\nUID:lim@verif\nSUMMARY:x\nDTSTART%s:%s\nRRULE:%s\nEND:VEVENT\nEND:VCALENDAR\n" % (par, ds, rule)
+                stratum = "limits"
+            else:
+                text, stratum = gen_case(rng, k)
             npop = rng.choice([3, 70, 200]) if tier == "quick" else rng.choice([3, 70, 200, 700])
             style = rng.choice(["pop", "peekpop", "npeek"])
             run_one(srv, plain, part, text, stratum, npop, style)
